@@ -45,8 +45,10 @@ vars == <<blk, canon, st, sb, stale, ok, tag, last, hist>>
 (* which path of the code the last Sync took (part of the VIEW, so that a history is printed for
    every reachable state AND every way the code can get there) *)
 (* rel: where the stored events sit relative to the rollback target block (-1 just below, 0 exactly
-   at it, 1 just above), for calls that roll back *)
-NoTag == [rb |-> FALSE, gap |-> FALSE, nr |-> 0, k |-> "none", at |-> 0, rel |-> {}]
+   at it, 1 just above), for calls that roll back;
+   bx: a range of the call holds an inadmissible event at or before an admissible one (an
+   implementation that gives up on the rest of a batch shows only then) *)
+NoTag == [rb |-> FALSE, gap |-> FALSE, nr |-> 0, k |-> "none", at |-> 0, rel |-> {}, bx |-> FALSE]
 
 (* history entries; a sync entry carries the committed database state the spec predicts after the
    call (the replay continues with a concrete fault that produces it) *)
@@ -113,7 +115,12 @@ Info ==
         r0 == Run(cfg, blk, canon, st, NoFault)
         tgt == st.synced.num - NumReorged(cfg, blk, CheckBlock(cfg, blk, canon, st.synced), st.synced)
     IN [rb |-> rb, nr |-> Len(r0.seq) - (IF rb THEN 1 ELSE 0),
-        rel |-> IF rb THEN {r.num - tgt : r \in {q \in st.stored : q.num - tgt \in {-1, 0, 1}}} ELSE {}]
+        rel |-> IF rb THEN {r.num - tgt : r \in {q \in st.stored : q.num - tgt \in {-1, 0, 1}}} ELSE {},
+        bx |-> \E i \in 1..Len(r0.seq) : r0.seq[i].synced.hash # Empty /\
+                 LET pre == IF i = 1 THEN st ELSE r0.seq[i - 1]
+                     lo  == IF pre.synced.has THEN pre.synced.num + 1 ELSE Start0
+                     bs  == {c \in AncSelf(blk, canon) : blk[c].num >= lo /\ blk[c].num <= r0.seq[i].synced.num}
+                 IN \E b1, b2 \in bs : Bad \in blk[b1].evs /\ blk[b1].num <= blk[b2].num /\ blk[b2].evs \ {Bad} # {}]
 
 (* the faults that make a difference: a fault in the preamble (at = 0) matters only if a rollback
    is due, otherwise nothing happens at all *)
@@ -128,7 +135,7 @@ Sync(f, info) ==
           /\ sb' = SbFold(sb, r.seq, 1)
           /\ stale' = (sb' # 0 /\ sb' \notin AncSelf(blk, canon))
           /\ tag' = [rb |-> info.rb, gap |-> st.synced.has /\ blk[canon].num > st.synced.num + 1,
-                     nr |-> info.nr, k |-> f.k, at |-> f.at, rel |-> info.rel]
+                     nr |-> info.nr, k |-> f.k, at |-> f.at, rel |-> info.rel, bx |-> info.bx]
     /\ last' = [H("sync", 0, "", f.k, f.at, PostOf(st')) EXCEPT !.t = tag']
     /\ hist' = Append(hist, last')
     /\ UNCHANGED <<blk, canon>>
